@@ -279,7 +279,10 @@ func (w *cacheWorld) exec(a, i int, op COp) {
 		w.end(e, err)
 	case "setint":
 		e := w.begin(a, i, op)
-		_, err := config.UpdatePartialFromConfig(w.cfg, map[string]any{"cache": map[string]any{"cleanup_interval": (time.Duration(op.Val) * time.Millisecond).String()}})
+		var err error
+		for k := 0; k <= op.Burst; k++ {
+			_, err = config.UpdatePartialFromConfig(w.cfg, map[string]any{"cache": map[string]any{"cleanup_interval": (time.Duration(op.Val+int64(op.Burst-k)) * time.Millisecond).String()}})
+		}
 		w.end(e, err)
 	case "destroy":
 		e := w.begin(a, i, op)
@@ -527,6 +530,9 @@ func runCachePlan(t *testing.T, planAny any, ctl Ctl) *Result {
 			res.violate("C16.b", "panic", "task panicked: %s", pm)
 		}
 		checkEndless()
+		if bl := blockedHandlers(s); len(bl) > 0 && end != "steps" {
+			res.violate("C14.c", p.Backend+" notification-handler-left-blocked", "%d handler(s) of an interval change are blocked for good: %s [%s]", len(bl), strings.Join(bl, ", "), opSig(p))
+		}
 		// teardown
 		cancel()
 		if !w.destr {
@@ -542,7 +548,10 @@ func runCachePlan(t *testing.T, planAny any, ctl Ctl) *Result {
 				break
 			}
 			if i > 0 {
+				// after the channel had been emptied once, more arrived: senders had been waiting on
+				// it, i.e. notification handlers of a cache that has been stopped were left blocked
 				res.Probes["notifier_left_blocked_after_stop"] += n
+				res.violate("C14.c", p.Backend+" notification-handler-left-blocked-after-stop", "%d interval-change handler(s) were still blocked on the stopped cleanup task's channel after the cache had been destroyed [%s]", n, opSig(p))
 			}
 		}
 		if end == "steps" {
@@ -1052,6 +1061,9 @@ func genCachePlan(r *rand.Rand, family string) *CachePlan {
 					case 2:
 						op.Kind = "setint"
 						op.Val = []int64{1, 20, 500, 60000}[r.IntN(4)]
+						if family == "stress" && r.IntN(2) == 0 {
+							op.Burst = 2 + r.IntN(3) // several interval changes right behind one another
+						}
 					default:
 						op.Kind = "wait"
 						op.WaitMs = 1
